@@ -71,6 +71,7 @@ pub const VALUE_SEEDS: &[&str] = &[
     "Some(Left((1, true)))", "0xdeadbeef", "[0xab, 0xcd]", "(0xabcd, [true, false], list![Some(1), None])", "[[1, 2], [3, 4]]",
     "0x0000000000000000000000000000000000000000000000000000000000000001", "(Left(0b0001), Right(()))", "((1))", "{ 1 }", "((), ((),))",
     "0x000102030405060708090a0b0c0d0e0f", "[None, Some(0x0102)]", "list![[1, 2], [3, 4], [5, 6]]",
+    "[0x0102, 0x0304]", "list![0x01]", "[0xbe_ef]", "(true, Some([Left(0x00), Right(7)]))",
 ];
 
 pub const TYPE_SEEDS: &[&str] = &[
@@ -87,4 +88,5 @@ pub const VALUE_PARSE_TYPES: &[&str] = &[
     "List<u8, 2>", "List<u8, 4>", "List<u4, 8>", "List<[u8; 2], 4>", "Option<u8>", "Option<u4>", "Option<[u8; 2]>",
     "Either<u8, u4>", "Either<u1, ()>", "Either<[u8; 4], u32>", "(u256, [u8; 0])", "Option<Option<u2>>",
     "(Option<[u8; 2]>, List<u8, 2>)", "[Option<[u8; 2]>; 2]", "(u1, u2, u4, u8)", "List<bool, 16>", "Either<(), (u128, u64)>",
+    "[[u16; 1]; 2]", "[[u16; 2]; 2]", "List<[bool; 1], 4>", "[[u4; 2]; 1]", "(bool, Option<[Either<[(); 1], u8>; 2]>)",
 ];
